@@ -522,7 +522,7 @@ PROPERTIES["C14"] = dict(
                 "bounds are obligations).  The CBOR prefix boundaries 24, 256 and 65536 are inside the bound for pad_cose_sig."),
     level_note=("pad_cose_sig: unpadded size 16..2^20, reserve up to +2^17 (quick) / +2^24 (thorough); two header shapes (empty, one unrelated entry).  "
                 "DataHash::pad_to_size pushes one byte per iteration, so its claim is bounded to +40 (quick) / +80 (thorough) bytes from concrete "
-                "starting pads (0, 20 / 0, 10, 23, 200, 250): the 65536 boundary is outside for the data-hash routine.  Reserves 1..4 bytes above the "
+                "starting pads (0, 20 / 0, 10, 23, 200): the 65536 boundary is outside for the data-hash routine.  Reserves 1..4 bytes above the "
                 "unpadded size are unrepresentable in CBOR (smallest entry is 5 bytes) and an error is required there.  The store-level equal-size "
                 "re-serialisation check and real signing are outside (whole pipeline)."),
     scope="sdk/src/crypto/cose/sign.rs pad_cose_sig; sdk/src/assertions/data_hash.rs DataHash::pad_to_size",
